@@ -542,7 +542,7 @@ def A64_EXTR(obj, sf, N, Rm, imms, Rn, Rd):
     mnemonic="STLR",
 )
 @ispec(
-    "32[ 1-=size(2) 001000 1=o2 0 1=o1       Rs(5) 1=o0       Rt2(5) Rn(5) Rt(5) ]",
+    "32[ 1-=size(2) 001000 0=o2 0 1=o1       Rs(5) 1=o0       Rt2(5) Rn(5) Rt(5) ]",
     mnemonic="STLXP",
 )
 @ispec(
